@@ -689,7 +689,9 @@ func (c *compiler) compile(tok *token) []instruction {
 		c.Begin()
 		res = append(res, c.compile(tok.Tokens[forInit])...)
 		cond := c.optimize(c.compile(tok.Tokens[forCond]))
+		c.Begin() // the body is a block of its own: it may redeclare the loop variable
 		block := c.optimize(c.compile(tok.Tokens[forBlock]))
+		c.End()
 		post := c.optimize(c.compile(tok.Tokens[forPost]))
 		if len(cond) > 0 {
 			res = append(res, instruction{Code: codeJump, A: reg((len(block) + len(post)))})
@@ -760,7 +762,9 @@ func (c *compiler) compile(tok *token) []instruction {
 		r := c.Locals.Index(tok.Pos.String())
 		k := c.Shadow(tok.Tokens[rangeKey].Text)
 		v := c.Shadow(tok.Tokens[rangeValue].Text)
+		c.Begin() // the body is a block of its own: it may redeclare the range variables
 		block := c.optimize(c.compile(tok.Tokens[rangeBlock]))
+		c.End()
 		for n, ins := range block {
 			switch ins.Code {
 			case codeBreak:
